@@ -14,7 +14,7 @@ import vlib
 import progs
 import specdiff
 
-THEOREM_MODULES = ["Yarel.Props.C18"]
+THEOREM_MODULES = ["Yarel.Props.C18", "Yarel.Props.ModelLimits"]
 REQUIRED_THEOREMS = ["range_iter_spec", "vec_iter_index_based", "vec_mutation_never_panics", "chain_spec", "map_filter_collect_reduce_spec",
                      "for_loop_spec", "break_leaves_no_state", "loops_independent", "string_iter_spec", "tuple_iter_spec"]
 LEVEL = "proof"
@@ -114,7 +114,7 @@ def correspondence(ctx, model_ok=True):
     failures = []
     broken = []
     reqs, progs_src = [], []
-    n_req = 1500 if ctx.thorough else 900
+    n_req = 9000 if ctx.thorough else 900
     for i in range(n_req):
         r = rng.fork("q%d" % i)
         k = r.below(4)
@@ -209,7 +209,7 @@ def correspondence(ctx, model_ok=True):
             if c[0] != "ok" or list(c[2]) != e or uaf:
                 failures.append({"what": "iteration scenario '%s' prints %s (%s), expected %s" % (name, list(c[2]) if len(c) > 2 else c, c[0], e), "program": src,
                                  "expected": e, "signature": "scenario " + name, "failing_input": True})
-    gen = progs.generated(rng, ["iteration", "control"], 800 if ctx.thorough else 450)
+    gen = progs.generated(rng, ["iteration", "control"], 4800 if ctx.thorough else 450)
     sd = specdiff.diff(ctx, [(n, s, m) for n, s, m, _ in gen] + [("scenario:" + sc[0], sc[1], {}) for sc in SCENARIOS], "C18", broken) if model_ok else {"failures": [], "compared": 0}
     failures += sd["failures"]
     cov = {
